@@ -274,10 +274,17 @@ def run_harness(h, scratch, slot, logdir):
         subprocess.call(["cp", "-a", base, tdir])
     logpath = os.path.join(logdir, h["id"] + ".log")
     cap = int(float(h["cap"]) * float(os.environ.get("VERIF_CAP_SCALE", "1")))
-    rc, to, wall = run_capped(kani_cmd(h, scratch, tdir), scratch.repo, cap, logpath)
+    # first run without trace generation (concrete playback costs ~10x on harnesses with covers)
+    rc, to, wall = run_capped(kani_cmd(h, scratch, tdir, playback=False), scratch.repo, cap, logpath)
     text = open(logpath, errors="replace").read()
     parsed = parse_kani(text)
     status, reason, failed = classify(h, rc, to, text, parsed)
+    if status == "FAIL" and h["expect"] == "pass":
+        # unexpected counterexample: re-run asking the solver for the concrete values
+        logpath2 = os.path.join(logdir, h["id"] + ".playback.log")
+        rc2, to2, wall2 = run_capped(kani_cmd(h, scratch, tdir, playback=True), scratch.repo, cap * 3, logpath2)
+        text = open(logpath2, errors="replace").read()
+        wall += wall2
     res = {"id": h["id"], "status": status, "reason": reason, "wall_s": round(wall, 1),
            "solver_s": round(parsed["solver_s"], 2), "queries": parsed["queries"],
            "n_checks": len(parsed["checks"]),
@@ -420,8 +427,7 @@ def main(argv):
             base = os.path.join(sc.dir, "target.base")
             cmd = ["cargo", "kani", "-Z", "stubbing", "-Z", "unstable-options", "-Z", "function-contracts",
                    "--only-codegen", "--harness", "__no_such_harness__", "--target-dir", base,
-                   "--no-overflow-checks", "--no-memory-safety-checks",
-                   "-Z", "concrete-playback", "--concrete-playback", "print"]
+                   "--no-overflow-checks", "--no-memory-safety-checks"]
             rc, to, wall = run_capped(cmd, sc.repo, 900, outdir + "/logs/_prebuild.log")
             txt = open(outdir + "/logs/_prebuild.log", errors="replace").read()
             if "error: could not compile" in txt or re.search(r"^error(\[E\d+\])?:", txt, re.M):
